@@ -1,5 +1,6 @@
 import Mochi.Model.Broker
 import Mochi.Lemmas.BrokerOrder
+import Mochi.Lemmas.InflOrder
 /-!
 # C12 — Messages on one topic from one publisher arrive in publish order
 
@@ -311,3 +312,46 @@ end Mochi.Broker
 #print axioms Mochi.Broker.C12_qos0_stream_order
 #print axioms Mochi.Broker.h12_order
 #print axioms Mochi.Broker.h12_order_qos1
+
+/-! ## The in-flight store is handed out oldest first (M14, `Model/InflOrder.lean`)
+
+The positive half of the boundary F12 draws: messages created in DIFFERENT seconds are resent (session resumption:
+`GetAll`) and released (flow control: `NextImmediate`) in creation order, for every store — whatever the packet ids
+(the 65535 → 1 wrap included) and however large the creation times. Before fix `fix: in-flight messages are ordered
+by their full creation time` the comparator truncated `Created` to 16 bits and this failed across every multiple of
+65536 seconds (`inflorder` suite: `Inflight.GetAll(0) returned packet 65534 (created 65536) before packet 65532
+(created 65535)`). -/
+
+open Mochi.InflOrder in
+/-- for every store: two collected records with different creation times come out older first -/
+theorem C12_inflight_older_first (s : Store) (imm : Bool) (a b : Rec)
+    (ha : a ∈ candidates s imm) (hb : b ∈ candidates s imm) (hlt : a.created < b.created) :
+    ∃ A B C, getAll s imm = A ++ a :: B ++ b :: C :=
+  sorted_older_first _ (getAll_sorted s imm) a b ((mem_getAll s imm a).mpr ha) ((mem_getAll s imm b).mpr hb) hlt
+
+open Mochi.InflOrder in
+/-- for every store: `getAll` returns exactly the collected records, sorted by creation time -/
+theorem C12_inflight_getAll_sorted_perm (s : Store) (imm : Bool) :
+    (getAll s imm).Perm (candidates s imm) ∧ (getAll s imm).Pairwise (fun a b => a.created ≤ b.created) :=
+  ⟨getAll_perm s imm, getAll_sorted s imm⟩
+
+open Mochi.InflOrder in
+/-- for every store: the deferred message released next is one than which no deferred message is older, and
+    there is one whenever a message is deferred -/
+theorem C12_next_immediate_is_oldest (s : Store) :
+    (∀ r, nextImmediate s = some r → r ∈ candidates s true ∧ ∀ x ∈ candidates s true, r.created ≤ x.created) ∧
+    (nextImmediate s = none ↔ candidates s true = []) :=
+  ⟨fun r h => nextImmediate_minimal s r h, nextImmediate_none s⟩
+
+open Mochi.InflOrder in
+/-- non-vacuity, at the boundary the code used to get wrong: ids straddle the packet-id wrap, creation times
+    straddle 65536 -/
+def inflWrapStore : Store := (set (set (set [] ⟨65535, 65535, -1⟩).1 ⟨1, 65536, -1⟩).1 ⟨2, 65534, 0⟩).1
+
+open Mochi.InflOrder in
+example : (getAll inflWrapStore false).map (·.id) = [2, 65535, 1] ∧
+    (nextImmediate inflWrapStore).map (·.id) = some 65535 := by decide
+
+#print axioms C12_inflight_older_first
+#print axioms C12_inflight_getAll_sorted_perm
+#print axioms C12_next_immediate_is_oldest
